@@ -74,6 +74,8 @@ PLAN["C09"] = {
                 + [{"binary": b, "package": b, "profile": "C09", "runs": 50000, "chunks_per_job": 1} for b in SCHED_BINS],
     "timeout_s": {"quick": 1200, "thorough": 7200},
 }
+# Thorough tier of C09: the parallel-query catalogue under Miri (no OS threads: a stolen job runs entirely before or after its sibling).
+PLAN["C09"]["thorough"] = PLAN["C09"]["thorough"] + [{"binary": "miri:parsim", "package": "parsim", "profile": "C09", "runs": 152, "chunks_per_job": 1, "chunk_runs": 6}]
 # C15 also covers resource views of systems: the schedule simulator compares them with sequential execution.
 for _t, _n in (("quick", 2500), ("thorough", 40000)):
     PLAN["C15"][_t] = PLAN["C15"][_t] + [{"binary": b, "package": b, "profile": "C15", "runs": _n, "chunks_per_job": 1} for b in SCHED_BINS]
